@@ -178,6 +178,15 @@ func (fx *FuncExec) scanMods(fn *ssa.Function, depth int, seen map[*ssa.Function
 						continue
 					}
 					for _, loc := range k.Modifies {
+						if strings.HasPrefix(strings.TrimSpace(loc), "dyn(") {
+							if ps := x.dynPrefixesStatic(k, t, c, loc); ps != nil {
+								for _, p := range ps {
+									fx.modKeys[p] = true
+								}
+								fx.modKeys["ghost"] = true
+								continue
+							}
+						}
 						p, ok := x.locPrefixStatic(k, t, c, loc)
 						if !ok {
 							fx.modAll = true
@@ -575,6 +584,15 @@ func (x *Exec) havocLoc(st *State, sc *SpecCtx, loc string) {
 			st.storeAt(a, st.fresh(a.Ty, "hv"))
 			return
 		}
+		if ok && v.Ty != nil {
+			if ps := x.eng.implPrefixes(v.Ty); len(ps) > 0 {
+				for _, p := range ps {
+					st.havocPrefix(p)
+				}
+				st.havocPrefix("ghost")
+				return
+			}
+		}
 		st.havocAll("modifies " + loc)
 		return
 	}
@@ -641,6 +659,11 @@ func (x *Exec) havocElems(st *State, sv Value, lo, hi string) {
 	et := sv.Ty.Underlying().(*types.Slice).Elem()
 	ek := kindOf(et)
 	if ek >= VSlice {
+		// aggregate elements: forget every leaf heap of the element type (coarse but sound)
+		if ek == VStruct || ek == VSlice {
+			st.havocPrefix("elem:" + typeKey(et))
+			return
+		}
 		st.unsupported("havoc of aggregate slice elements")
 	}
 	key := "elem:" + typeKey(et)
@@ -797,4 +820,108 @@ func (x *Exec) calleeFrame(st *State, ins ssa.Instruction, sc *SpecCtx, loc stri
 		a := sc.evalAddr(e)
 		x.frameCheck(st, ins, a.Key, a.Root, "", loc)
 	}
+}
+
+// implPrefixes lists the heap key prefixes an object behind interface type it may own: the
+// struct types of the module (and of loaded libraries) whose pointer or value implements the
+// interface, plus the element heaps of their slice-typed fields.
+func (e *Engine) implPrefixes(it types.Type) []string {
+	iface, ok := it.Underlying().(*types.Interface)
+	if !ok {
+		return nil
+	}
+	key := fullTypeName(it)
+	e.mu.Lock()
+	if p, ok := e.implCache[key]; ok {
+		e.mu.Unlock()
+		return p
+	}
+	e.mu.Unlock()
+	seen := map[string]bool{}
+	var out []string
+	add := func(k string) {
+		if !seen[k] {
+			seen[k] = true
+			out = append(out, k)
+		}
+	}
+	for _, pkg := range e.prog.AllPackages() {
+		for _, m := range pkg.Members {
+			tn, ok := m.(*ssa.Type)
+			if !ok {
+				continue
+			}
+			T := tn.Type()
+			if _, isIface := T.Underlying().(*types.Interface); isIface {
+				continue
+			}
+			if !(types.Implements(T, iface) || types.Implements(types.NewPointer(T), iface)) {
+				continue
+			}
+			add(typeKey(T))
+			if st, ok := T.Underlying().(*types.Struct); ok {
+				for i := 0; i < st.NumFields(); i++ {
+					if sl, ok := st.Field(i).Type().Underlying().(*types.Slice); ok {
+						add("elem:" + typeKey(sl.Elem()))
+					}
+				}
+			}
+		}
+	}
+	e.mu.Lock()
+	e.implCache[key] = out
+	e.mu.Unlock()
+	return out
+}
+
+// dynPrefixesStatic resolves `dyn(e).*` statically through the declared interface type of e.
+func (x *Exec) dynPrefixesStatic(k *FuncContract, t callTarget, c *ssa.CallCommon, loc string) []string {
+	i, j := strings.Index(loc, "("), strings.LastIndex(loc, ")")
+	if i < 0 || j < i {
+		return nil
+	}
+	e, err := ParseExpr(strings.TrimSpace(loc[i+1 : j]))
+	if err != nil {
+		return nil
+	}
+	names, tys := x.contractParams(k, t, c)
+	var walk func(e *Expr) types.Type
+	walk = func(e *Expr) types.Type {
+		switch e.Op {
+		case "ident":
+			for n, nm := range names {
+				if nm == e.Name {
+					return tys[n]
+				}
+			}
+		case "sel":
+			ty := walk(e.Args[0])
+			if ty == nil {
+				return nil
+			}
+			if pt, ok := ty.Underlying().(*types.Pointer); ok {
+				ty = pt.Elem()
+			}
+			if st, ok := ty.Underlying().(*types.Struct); ok {
+				for f := 0; f < st.NumFields(); f++ {
+					if st.Field(f).Name() == e.Name {
+						return st.Field(f).Type()
+					}
+				}
+			}
+		case "un:*":
+			ty := walk(e.Args[0])
+			if ty != nil {
+				if pt, ok := ty.Underlying().(*types.Pointer); ok {
+					return pt.Elem()
+				}
+			}
+		}
+		return nil
+	}
+	ty := walk(e)
+	if ty == nil {
+		return nil
+	}
+	return x.eng.implPrefixes(ty)
 }
